@@ -25,6 +25,24 @@ HLOf(t, i) == IF t[i].g # 0 /\ t[i].g # i THEN t[t[i].g].p ELSE <<>>
 \* group root: path naming the inode group (own path for first members / singletons)
 RootOf(t, i) == IF t[i].g # 0 THEN t[t[i].g].p ELSE t[i].p
 
+\* chroot-style resolution of a path in a tree given as a function path -> entry (entries carry
+\* lnb = symlink target as bytes): every component is followed, ".." is clamped at the root,
+\* absolute targets restart at the root; fuel bounds symlink expansions (cycles -> ok = FALSE)
+RECURSIVE ResolveFrom(_, _, _, _)
+ResolveFrom(T, cur, rest, fuel) ==
+  IF rest = <<>> THEN [ok |-> TRUE, p |-> cur]
+  ELSE LET c == Head(rest)
+           r == Tail(rest)
+       IN IF c = <<>> \/ c = DotN THEN ResolveFrom(T, cur, r, fuel)
+          ELSE IF c = DotDotN THEN ResolveFrom(T, IF cur = <<>> THEN <<>> ELSE Parent(cur), r, fuel)
+          ELSE LET nxt == Append(cur, c) IN
+               IF nxt \in DOMAIN T /\ T[nxt].t = "symlink"
+               THEN IF fuel = 0 THEN [ok |-> FALSE, p |-> nxt]
+                    ELSE LET tg == T[nxt].lnb IN
+                         ResolveFrom(T, IF Len(tg) > 0 /\ tg[1] = Slash THEN <<>> ELSE cur, Split(tg) \o r, fuel - 1)
+               ELSE ResolveFrom(T, nxt, r, fuel)
+ResolvePath(T, p) == ResolveFrom(T, <<>>, p, 40)
+
 IsDirE(e) == e.t = "dir"
 IsFileE(e) == e.t = "file"
 =============================================================================
